@@ -63,16 +63,22 @@ def _bare_evolver():
     return ev
 
 
-def h_evolve(n_a: int, n_b: int, fail_at: int, save_fails: bool, second_call: bool) -> bool:
+class _OtherError(Exception):
+    """A failure that is not an EvolutionException (e.g. a raw database error from a migration)."""
+
+
+def h_evolve(n_a: int, n_b: int, fail_at: int, save_fails: bool, second_call: bool,
+             raw_error: bool) -> bool:
     """Evolver.evolve(): evolving once and first; then exactly one of evolved (iff normal return
     and the signature was saved) / evolving_failed; the process-wide lock returns to its start.
 
     pre: 0 <= n_a <= hx.bound(2, 3) and 0 <= n_b <= hx.bound(2, 3) and -1 <= fail_at <= hx.bound(4, 6)
-    pre: not hx.excluded(n_a, n_b, fail_at, save_fails, second_call)
+    pre: not hx.excluded(n_a, n_b, fail_at, save_fails, second_call, raw_error)
     post: _
     """
     log = []
     counter = [0]
+    exc_cls = _OtherError if raw_error else EvolutionExecutionError
 
     class TA(BaseEvolutionTask):
         def prepare(self, hinted=False, **kw):
@@ -81,7 +87,7 @@ def h_evolve(n_a: int, n_b: int, fail_at: int, save_fails: bool, second_call: bo
         def execute(self, cursor=None, sql_executor=None, **kw):
             if counter[0] == fail_at:
                 counter[0] += 1
-                raise EvolutionExecutionError('x')
+                raise exc_cls('x')
             counter[0] += 1
             log.append(('exec', {'id': self.id}))
 
@@ -115,7 +121,7 @@ def h_evolve(n_a: int, n_b: int, fail_at: int, save_fails: bool, second_call: bo
     with _Recorder(ev, log):
         try:
             ev.evolve()
-        except EvolutionExecutionError:
+        except (EvolutionExecutionError, _OtherError):
             raised = True
         if second_call:
             try:
@@ -452,7 +458,7 @@ def h_execute_tasks(b0: int, b1: int, b2: int, split: bool, fail_at: int) -> boo
     return hx.verdict(ok, nontrivial)
 
 
-def h_on_progress(a0: int, a1: int, a2: int, a3: int) -> bool:
+def h_on_progress(a0: int, a1: int, a2: int, a3: int, fake1: bool, fake3: bool) -> bool:
     """MigrationExecutor._on_progress: apply_start/apply_success map to applying/applied_migration
     with the same migration; every other action emits nothing.
 
@@ -467,8 +473,11 @@ def h_on_progress(a0: int, a1: int, a2: int, a3: int) -> bool:
     mexec._signal_sender = ev
     migs = [_Mig('app', 'm%d' % i) for i in range(4)]
     with _Recorder(ev, log):
+        fakes = [False, True if fake1 else False, False, True if fake3 else False]
         for i, a in enumerate((a0, a1, a2, a3)):
-            mexec._on_progress(ACTIONS[a], migs[i], False)
+            # Django calls progress_callback(action, migration, fake); soft-applied (fake-initial)
+            # migrations report apply_success with fake=True
+            mexec._on_progress(ACTIONS[a], migs[i], fakes[i])
     exp = []
     for i, a in enumerate((a0, a1, a2, a3)):
         if a == 0:
